@@ -25,8 +25,8 @@ Requirements for the change:
 - It must need something SPECIFIC to manifest: a particular thread interleaving, a crash/fault at a particular point, a multi-step sequence of operations, an unusual input or configuration, or two cooperating sites that each look fine alone. It must NOT be something ordinary use exposes at once (the existing tests must still pass).
 - The library and ALL tests must still compile and the existing test suite must still pass with the change. {extra}
 
-How to build and test (offline, ~3-6 minutes for a full build on this machine; use -j16):
-  cd {wt} && PATH=/root/miniconda/bin:$PATH cmake -G Ninja -B _build -DCMAKE_BUILD_TYPE=RelWithDebInfo -DCMAKE_CXX_FLAGS=-Wno-error -DBUILD_TESTING=ON >/dev/null && cmake --build _build -j16 2>&1 | tail -3
+How to build and test (offline; ccache is configured and primed, so the first full build is mostly cache hits; use -j16 and keep the ccache launcher flag exactly as given):
+  cd {wt} && PATH=/root/miniconda/bin:$PATH cmake -G Ninja -B _build -DCMAKE_BUILD_TYPE=RelWithDebInfo -DCMAKE_CXX_FLAGS=-Wno-error -DBUILD_TESTING=ON -DCMAKE_CXX_COMPILER_LAUNCHER=ccache >/dev/null && cmake --build _build -j16 2>&1 | tail -3
   ctest --test-dir {wt}/_build -j8 --timeout 900 2>&1 | tail -15
 (Some tests named *press* or timing-related are known flaky even on the unchanged tree; a failure that also occurs, intermittently, without your change does not count against you, but say so.) Always run any program you compile under `timeout 120` so a hang cannot block you.
 
